@@ -2,15 +2,18 @@
 # Re-applies every stored seeded change to /repo (one at a time, always reverted) and runs the
 # checks that are recorded as catching it; prints one line per (seed, check). rc=1 is the expected outcome.
 cd /verif
+rm -rf /verif/target/evidence.bak; cp -r /verif/evidence /verif/target/evidence.bak
 for d in seeded/*/; do
   n=$(basename "$d")
   [ -f "$d/patch.diff" ] || continue
   checks=$(python3 -c "import json;print(' '.join(json.load(open('$d/meta.json'))['caught_by']))")
+  tier=$(python3 -c "import json;print(json.load(open('$d/meta.json')).get('tier','quick'))")
   if ! git -C /repo diff --quiet; then echo "repo dirty"; exit 2; fi
   git -C /repo apply "/verif/$d/patch.diff" || { echo "$n: PATCH DOES NOT APPLY"; continue; }
   for c in $checks; do
-    ./check $c quick >/dev/null 2>&1; rc=$?
+    ./check $c $tier >/dev/null 2>&1; rc=$?
     echo "$n $c rc=$rc $([ $rc -eq 1 ] && echo CAUGHT || echo NOT-CAUGHT)"
   done
   git -C /repo checkout -- .
 done
+rm -rf /verif/evidence; cp -r /verif/target/evidence.bak /verif/evidence
